@@ -177,9 +177,11 @@ class Type1FontHeaderParser(PSStackParser[int]):
 
     def do_keyword(self, pos: int, token: PSKeyword) -> None:
         if token is self.KEYWORD_PUT:
-            ((_, key), (_, value)) = self.pop(2)
-            if isinstance(key, int) and isinstance(value, PSLiteral):
-                self.add_results((key, literal_name(value)))
+            operands = self.pop(2)
+            if len(operands) == 2:  # else: a "put" without code and name
+                ((_, key), (_, value)) = operands
+                if isinstance(key, int) and isinstance(value, PSLiteral):
+                    self.add_results((key, literal_name(value)))
         elif token is self.KEYWORD_STANDARD_ENCODING:
             # "/Encoding StandardEncoding def": the built-in encoding is the
             # standard one; dup/put entries (if any) are applied on top of it.
@@ -1087,8 +1089,11 @@ class PDFType1Font(PDFSimpleFont):
         if "Encoding" not in spec and "FontFile" in descriptor:
             # try to recover the missing encoding info from the font file.
             self.fontfile = stream_value(descriptor.get("FontFile"))
-            length1 = int_value(self.fontfile["Length1"])
-            data = self.fontfile.get_data()[:length1]
+            data = self.fontfile.get_data()
+            if "Length1" in self.fontfile:
+                # the clear-text portion of the program; without /Length1
+                # the whole stream is scanned
+                data = data[: int_value(self.fontfile["Length1"])]
             parser = Type1FontHeaderParser(BytesIO(data))
             self.cid2unicode = parser.get_encoding()
 
